@@ -26,6 +26,9 @@ Flip(d, i) == [d EXCEPT ![i] = (d[i] + 1) % 3]
 PosOf(d) == IF Len(d) = 0 THEN {} ELSE IF Positions = "all" THEN 1 .. Len(d) ELSE {1, Len(d)}
 MenuOf(f) ==
   LET d == Prot[f] IN
+  IF Positions = "obj"      \* the small menu of the object model (MC_Par1Object): one damage of each kind
+  THEN {AbsentV, d, d \o << 1 >>} \cup {Flip(d, 1) : x \in (IF Len(d) > 0 THEN {0} ELSE {})} \cup {Prot[g] : g \in NameSetX \ {f}}
+  ELSE
      {AbsentV, d}
        \cup {Flip(d, i) : i \in PosOf(d)}
        \cup {SubSeq(d, 1, Len(d) - 1) : x \in (IF Len(d) > 0 THEN {0} ELSE {})}
